@@ -679,11 +679,15 @@ fn gen_server(rng: &mut Rng, version: u32, doc_len: u32) -> Server {
             max_chunk,
         },
         4 => Server::Respond {
-            // truncated body: orderly close before Content-Length is reached
+            // Truncated body, orderly close. With a Content-Length libcurl reports
+            // error 18; without one (a close-delimited body, or a connection closed
+            // inside the response headers: cut after 0 bytes) it reports success
+            // with the prefix delivered - observed with real libcurl 7.88.1
+            // (hunts/c20: `repro.sh close/3000`, `repro.sh hdrcut/30`).
             status: 200,
             body: version,
-            content_length: true,
-            cut_after: Some(rng.below(doc_len as u64) as u32),
+            content_length: rng.chance(1, 2),
+            cut_after: Some(if rng.chance(1, 6) { 0 } else { rng.below(doc_len as u64) as u32 }),
             reset: false,
             stall_after: None,
             latency_ns: latency,
@@ -1221,7 +1225,7 @@ impl Harness for C20 {
             "Crash model is process kill (what C20 states): completed operations persist, rename is atomic; power loss / lost page cache is not modelled".into(),
             "The curl stand-in reproduces libcurl's documented outcomes (18 short body, 23 short callback count, 28 timeout incl. paused transfer, 56 reset, 7 refused, 6 DNS, error-page bodies delivered to the callback)".into(),
             "tempfile stand-in: O_EXCL create with unique names, persist = rename(2), drop = unlink; /tmp is a different file system (rename across gives EXDEV)".into(),
-            "A close-delimited 200 body cut by an orderly close is indistinguishable from a complete one and is not generated".into(),
+            "A close-delimited 200 body cut by an orderly close (or a connection closed inside the response headers) is reported as success by libcurl with the prefix (or nothing) delivered; it is generated, and the prefix must not reach the cache".into(),
             "Two rink processes refreshing concurrently are outside the property as quantified".into(),
         ]
     }
